@@ -84,6 +84,7 @@ def check_codec(ctx, rep, wq, rq, label, expect_all_fields):
     # ---- reader
     reads, bodyvars, _ = reader_layout(ctx, rfi)
     seen = {}
+    sinks_by_key = {}
     node_var = None
     for n in ast.walk(rfi.node):
         if isinstance(n, ast.Assign) and isinstance(n.value, ast.Call) and isinstance(n.value.func, ast.Name) and n.value.func.id == "Node" \
@@ -111,7 +112,7 @@ def check_codec(ctx, rep, wq, rq, label, expect_all_fields):
                 if isinstance(lp, ast.For) and lp.iter is sub and isinstance(lp.target, ast.Name):
                     sinks |= sinks_of(ctx, rfi, lp.target.id, node_var)
             for c in ast.walk(rfi.node):
-                if isinstance(c, ast.Call) and isinstance(c.func, ast.Attribute) and any(a is sub for a in c.args):
+                if isinstance(c, ast.Call) and isinstance(c.func, ast.Attribute) and any(any(x is sub for x in ast.walk(a)) for a in c.args):
                     from ..layout import method_field as _mf
                     mf = _mf(ctx, c.func.attr)
                     if mf:
@@ -130,10 +131,7 @@ def check_codec(ctx, rep, wq, rq, label, expect_all_fields):
                     for t in c.targets:
                         if isinstance(t, ast.Attribute) and nm.canon(t.attr):
                             sinks.add(nm.canon(t.attr))
-        ok = sinks == {f}
-        rep.oblige(("R2", label, "restored", k), ok, sample={"codec": label, "key": k, "restored into": sorted(sinks)})
-        if not ok:
-            rep.add("R2", rfi.qname, sub, f"the value saved under '{k}' is restored into {sorted(sinks) or 'nothing'} instead of {f}", rfi.loc(sub))
+        sinks_by_key.setdefault(k, [set(), f, sub])[0].update(sinks)
         # the restoration may depend on the saved value only (None / emptiness tests of it), not on other state
         if bv is not None:
             from ..condeval import enclosing_ifs
@@ -158,6 +156,11 @@ def check_codec(ctx, rep, wq, rq, label, expect_all_fields):
                     if not okg:
                         rep.add("R2", rfi.qname, g.test, f"whether the saved '{k}' is restored depends on `{', '.join(sorted(names - derived))}`, not only on "
                                 f"the saved value: some trees do not reload exactly", rfi.loc(g))
+    for k, (sinks, f, sub) in sinks_by_key.items():
+        ok = sinks == {f}
+        rep.oblige(("R2", label, "restored", k), ok, sample={"codec": label, "key": k, "restored into": sorted(sinks)})
+        if not ok:
+            rep.add("R2", rfi.qname, sub, f"the value saved under '{k}' is restored into {sorted(sinks) or 'nothing'} instead of {f}", rfi.loc(sub))
     for k in keys:
         if k and k not in seen:
             rep.oblige(("R1", label, "unread", k), False)
